@@ -24,6 +24,7 @@ import atexit
 import itertools
 import json
 import os
+import re
 import select
 import subprocess
 import sys
@@ -35,16 +36,100 @@ READERS = {'len', 'contains', 'keys', 'items', 'values', 'iter'}
 DICT_MUTATORS = ['__setitem__', '__delitem__', 'pop', 'popitem', 'clear', 'update', 'setdefault',
                  '__ior__']
 STATE_ATTRS = {'_link_lookup', '_anchor'}
+# C-level dict methods that read the WHOLE dict in several steps and call back into Python between them (the values'
+# / keys' __eq__): through super() they are references to the cache's state like the mutators - "a single C-level
+# call" is not atomic
+DICT_WHOLE_READS = ['__eq__', '__ne__']
 
 
-def on_miss_fn(k):
-    return k * 10 + 7
+_KRE = re.compile(r'k(\d+)\Z')
 
 
-def mk_cache(cu, cls, max_size, on_miss, init):
-    c = getattr(cu, cls)(max_size=max_size, on_miss=on_miss_fn if on_miss else None)
+class VObj:
+    """a stored VALUE whose `==` is implemented in Python: C code comparing two stored values (`dict.__eq__`) calls
+    back into the interpreter, where a thread switch can happen - a scheduling point of the run (sched.user_point)"""
+    __slots__ = ('v',)
+
+    def __init__(self, v):
+        self.v = v
+
+    def __eq__(self, other):
+        sched.user_point()
+        r = isinstance(other, VObj) and self.v == other.v
+        sched.user_point()
+        return r
+
+    def __ne__(self, other):
+        return not self.__eq__(other)
+
+    __hash__ = None
+
+    def __repr__(self):
+        return 'V(%r)' % (self.v,)
+
+
+class KObj:
+    """a KEY whose `__hash__` / `__eq__` are implemented in Python (every dict lookup with a non-identical equal key
+    calls them)"""
+    __slots__ = ('k',)
+
+    def __init__(self, k):
+        self.k = k
+
+    def __hash__(self):
+        sched.user_point()
+        return hash(self.k)
+
+    def __eq__(self, other):
+        sched.user_point()
+        r = isinstance(other, KObj) and self.k == other.k
+        sched.user_point()
+        return r
+
+    def __ne__(self, other):
+        return not self.__eq__(other)
+
+    def __repr__(self):
+        return 'K(%r)' % (self.k,)
+
+
+class KStr(str):
+    """a str KEY (usable as a keyword name: `cache.update(**{KStr('k1'): v})`) with Python-level `__hash__` / `__eq__`"""
+    __slots__ = ()
+
+    def __hash__(self):
+        sched.user_point()
+        return str.__hash__(self)
+
+    def __eq__(self, other):
+        sched.user_point()
+        return str.__eq__(self, other)
+
+    def __ne__(self, other):
+        r = self.__eq__(other)
+        return r if r is NotImplemented else not r
+
+
+def _ident(x):
+    return x
+
+
+KEY_KINDS = {'int': _ident, 'str': lambda k: 'k%d' % k, 'obj': KObj, 'strobj': lambda k: KStr('k%d' % k)}
+VAL_KINDS = {'int': _ident, 'obj': VObj}
+KW_KEY_KINDS = ('str', 'strobj')        # keyword names must be strings
+
+
+def codec(case):
+    """(key encoder, value encoder) of a case: the model's integer keys / values are REPRESENTED in the real run as
+    ints (default), strings 'k<n>', or objects with Python-level __hash__ / __eq__; `canon` maps them back"""
+    return KEY_KINDS[case.get('keys', 'int')], VAL_KINDS[case.get('vals', 'int')]
+
+
+def mk_cache(cu, cls, max_size, on_miss, init, K=_ident, V=_ident):
+    om = (lambda key: V(canon(key) * 10 + 7)) if on_miss else None
+    c = getattr(cu, cls)(max_size=max_size, on_miss=om)
     for k, v in init:
-        c[k] = v
+        c[K(k)] = V(v)
     return c
 
 
@@ -53,44 +138,65 @@ def canon(v):
         return [canon(x) for x in v]
     if isinstance(v, dict):
         return sorted([canon(k), canon(x)] for k, x in v.items())
-    if v is None or isinstance(v, (int, str, bool)):
+    if isinstance(v, VObj):
+        return canon(v.v)
+    if isinstance(v, KObj):
+        return canon(v.k)
+    if isinstance(v, str):
+        m = _KRE.match(v)
+        return int(m.group(1)) if m else str(v)
+    if v is None or isinstance(v, (int, bool)):
         return v
     return repr(v)
 
 
-def apply_op(cache, op):
+def _other_cache(cache, pairs, K, V):
+    other = type(cache)(max_size=len(pairs) + 1)
+    for k, v in pairs:
+        other[K(k)] = V(v)
+    return other
+
+
+def apply_op(cache, op, K=_ident, V=_ident):
     kind = op[0]
     if kind == 'set':
-        cache[op[1]] = op[2]
+        cache[K(op[1])] = V(op[2])
         return None
     if kind == 'get':
-        return cache[op[1]]
+        return cache[K(op[1])]
     if kind == 'getd':
-        return cache.get(op[1], 99)
+        return cache.get(K(op[1]), V(99))
     if kind == 'del':
-        del cache[op[1]]
+        del cache[K(op[1])]
         return None
     if kind == 'pop':
-        return cache.pop(op[1])
+        return cache.pop(K(op[1]))
     if kind == 'popd':
-        return cache.pop(op[1], 99)
+        return cache.pop(K(op[1]), V(99))
     if kind == 'setdefault':
-        return cache.setdefault(op[1], op[2])
+        return cache.setdefault(K(op[1]), V(op[2]))
     if kind == 'update':
-        cache.update([tuple(p) for p in op[1]])
+        cache.update([(K(k), V(v)) for k, v in op[1]])
         return None
     if kind == 'updated':        # mapping argument: the `E.keys()` branch of update()
-        cache.update(dict((k, v) for k, v in op[1]))
+        cache.update(dict((K(k), V(v)) for k, v in op[1]))
         return None
     if kind == 'updatec':        # another (thread-private) LRU as argument: keys() + __getitem__ of that cache
-        other = type(cache)(max_size=len(op[1]) + 1)
-        for k, v in op[1]:
-            other[k] = v
-        cache.update(other)
+        cache.update(_other_cache(cache, op[1], K, V))
+        return None
+    if kind == 'updatek':        # keyword form: update(**kw) / update(pairs, **kw)
+        kw = dict((K(k), V(v)) for k, v in op[2])
+        if op[1]:
+            cache.update([(K(k), V(v)) for k, v in op[1]], **kw)
+        else:
+            cache.update(**kw)
+        return None
+    if kind == 'updatekd':       # update(mapping, **kw)
+        cache.update(dict((K(k), V(v)) for k, v in op[1]), **dict((K(k), V(v)) for k, v in op[2]))
         return None
     if kind == 'copyp':          # copy(), then everything observable about the copy: items in dict order, class,
         c2 = cache.copy()        # capacity, and its eviction order (probed on the private copy)
-        return [canon(list(c2.items())), type(c2).__name__, c2.max_size, probe_order(c2, c2.max_size)]
+        return [canon(list(c2.items())), type(c2).__name__, c2.max_size, probe_order(c2, c2.max_size, K, V)]
     if kind == 'popitem':
         return canon(cache.popitem())
     if kind == 'clear':
@@ -100,28 +206,32 @@ def apply_op(cache, op):
         c2 = cache.copy()
         return sorted(canon(list(c2.items())))
     if kind == 'eq':
-        return cache == dict((k, v) for k, v in op[1])
+        return cache == dict((K(k), V(v)) for k, v in op[1])
     if kind == 'ne':
-        return cache != dict((k, v) for k, v in op[1])
+        return cache != dict((K(k), V(v)) for k, v in op[1])
+    if kind == 'eqc':            # compared with another (thread-private) cache
+        return cache == _other_cache(cache, op[1], K, V)
+    if kind == 'nec':
+        return cache != _other_cache(cache, op[1], K, V)
     if kind == 'ior':
-        cache |= dict((k, v) for k, v in op[1])
+        cache |= dict((K(k), V(v)) for k, v in op[1])
         return None
     if kind == 'len':
         return len(cache)
     if kind == 'contains':
-        return op[1] in cache
+        return K(op[1]) in cache
     if kind == 'keys':
-        return sorted(cache.keys())
+        return sorted(canon(list(cache.keys())))
     raise ValueError(op)
 
 
-def probe_order(cache, max_size):
+def probe_order(cache, max_size, K=_ident, V=_ident):
     """final eviction order through the public API: insert fresh keys, record what vanishes"""
     order = []
     for i in range(2 * max_size + 2):
-        before = set(cache.keys())
-        cache[1000 + i] = 0
-        after = set(cache.keys())
+        before = set(canon(list(cache.keys())))
+        cache[K(1000 + i)] = V(0)
+        after = set(canon(list(cache.keys())))
         gone = sorted(before - after)
         order.append(gone)
         if len(cache) > max_size:
@@ -182,6 +292,7 @@ class LockAnalysis:
         self._lockmap = {}
         self._self_locking = {}
         self._oprefs = {}
+        self._outnodes = {}
         self.locking_decorators = set()
         for node in tree.body:
             if isinstance(node, ast.FunctionDef) and self._is_locking_decorator(node):
@@ -359,6 +470,51 @@ class LockAnalysis:
         unmark_closures(fn)
         return m
 
+    def regions_on_a_path(self, cname, fn):
+        """the largest number of SEPARATE outermost lock regions one execution of `fn` can pass through (branches of
+        an `if` are alternatives, a region inside a loop counts twice): two regions in one call are two separately
+        atomic pieces - check-then-act - even if every single reference is under the lock"""
+        aliases = self._lock_aliases(fn)
+
+        def delegating(st):
+            # an expression / return / assignment statement that calls a self-locking private helper
+            if not isinstance(st, (ast.Expr, ast.Return, ast.Assign, ast.AugAssign, ast.AnnAssign)):
+                return 0
+            k = 0
+            for n in ast.walk(st):
+                if isinstance(n, ast.Call) and isinstance(n.func, ast.Attribute) and _is_self(n.func.value) \
+                        and self._private(n.func.attr):
+                    hc, h = self.resolve(cname, n.func.attr)
+                    if h is not None and h is not fn and self.self_locking(cname, h):
+                        k += 1
+            return k
+
+        def seq(body):
+            total, i = 0, 0
+            while i < len(body):
+                st = body[i]
+                if isinstance(st, ast.With) and any(self._is_lock(it.context_expr, aliases) for it in st.items):
+                    total += 1
+                elif self._lock_call(st, 'acquire', aliases) and i + 1 < len(body) and isinstance(body[i + 1], ast.Try):
+                    total += 1
+                    i += 1
+                elif isinstance(st, ast.If):
+                    total += max(seq(st.body), seq(st.orelse))
+                elif isinstance(st, (ast.For, ast.While, ast.AsyncFor)):
+                    total += 2 * seq(st.body) + seq(st.orelse)
+                elif isinstance(st, ast.Try):
+                    total += seq(st.body) + max([seq(h.body) for h in st.handlers] + [seq(st.orelse)]) + \
+                        seq(st.finalbody)
+                elif isinstance(st, ast.With):
+                    total += seq(st.body)
+                else:
+                    total += delegating(st)
+                i += 1
+            return total
+        if any(isinstance(d, ast.Name) and d.id in self.locking_decorators for d in fn.decorator_list):
+            return 1
+        return seq(fn.body)
+
     def _param_only_in_region(self, cname, h, pname):
         m = self.lockmap(cname, h)
         return all(id(n) in m['locked'] for n in ast.walk(h) if isinstance(n, ast.Name) and n.id == pname
@@ -386,7 +542,8 @@ class LockAnalysis:
                 out.append((n, 'self.' + a))
             elif isinstance(n, ast.Call):
                 f = n.func
-                if isinstance(f, ast.Attribute) and _is_super_call(f.value) and f.attr in DICT_MUTATORS:
+                if isinstance(f, ast.Attribute) and _is_super_call(f.value) and \
+                        (f.attr in DICT_MUTATORS or f.attr in DICT_WHOLE_READS):
                     out.append((n, 'super().' + f.attr))
                 elif isinstance(f, ast.Name) and f.id in local_names and f.id not in bound_public:
                     out.append((n, 'call of local ' + f.id))
@@ -426,12 +583,14 @@ class LockAnalysis:
         why = []
 
         self._oprefs[(cname, id(fn))] = oprefs = []
+        self._outnodes[(cname, id(fn))] = outnodes = []
 
         def count(n, what):
             nonlocal total
             oprefs.append((what, id(n) in m['locked'], id(n) in loops))
             if id(n) in m['locked']:
                 return
+            outnodes.append(n)
             total += 2 if id(n) in loops else 1
             why.append(what)
         for n in ast.walk(fn):
@@ -471,6 +630,54 @@ class LockAnalysis:
                 count(n, 'iterates self')
         return total, why
 
+    def outside_statements(self, cname, fn):
+        """WHICH statements of `fn` refer to state / invoke cache operations outside every lock region, and which
+        parameters of `fn` they (and the headers of the loops / conditions around them) read: [(line, source text,
+        {parameter forms})] with forms from 'pos' (a positional parameter), 'varargs', 'kwonly', 'kw' (the **kwargs
+        dict).  Tells the directed search which ARGUMENT FORM of the method reaches the unlocked statement."""
+        m = self.lockmap(cname, fn)
+        self.outside_ops(cname, fn)
+        nodes = [n for n, _ in self.touching_nodes(cname, fn) if id(n) not in m['locked']] + \
+            list(self._outnodes.get((cname, id(fn)), []))
+        parents = {}
+        for n in ast.walk(fn):
+            for c in ast.iter_child_nodes(n):
+                parents[id(c)] = n
+        a = fn.args
+        form = {x.arg: 'pos' for x in a.posonlyargs + a.args}
+        form.update({x.arg: 'kwonly' for x in a.kwonlyargs})
+        if a.vararg:
+            form[a.vararg.arg] = 'varargs'
+        if a.kwarg:
+            form[a.kwarg.arg] = 'kw'
+        form.pop('self', None)
+        out, seen = [], set()
+        for n in nodes:
+            reads, stmt, x = set(), None, n
+            while x is not None and x is not fn:
+                if isinstance(x, ast.stmt):
+                    if stmt is None:
+                        stmt = x
+                    if isinstance(x, (ast.For, ast.AsyncFor)):
+                        hdr = [x.iter, x.target]
+                    elif isinstance(x, (ast.While, ast.If)):
+                        hdr = [x.test]
+                    elif isinstance(x, (ast.With, ast.Try, ast.FunctionDef)):
+                        hdr = []
+                    else:
+                        hdr = [x]
+                    for h in hdr:
+                        reads |= {y.id for y in ast.walk(h) if isinstance(y, ast.Name) and y.id in form}
+                x = parents.get(id(x))
+            if stmt is not None and id(stmt) not in seen:
+                seen.add(id(stmt))
+                try:
+                    txt = ast.unparse(stmt).split('\n')[0]
+                except Exception:
+                    txt = '?'
+                out.append((getattr(stmt, 'lineno', 0), txt, sorted({form[r] for r in reads})))
+        return sorted(out)
+
     @staticmethod
     def _is_callee(fn, attr_node):
         for n in ast.walk(fn):
@@ -506,6 +713,11 @@ class LockAnalysis:
                         and not any(n is t for t, _ in touch):
                     refs.append(('self.%s (self-locking helper)' % n.attr, True, False, True, False))
             refs += [(w, False, True, lk, lp) for w, lk, lp in self._oprefs.get((cname, id(fn)), [])]
+            # every lock region after the first on one path is one more separately atomic piece of the call
+            extra = max(0, self.regions_on_a_path(cname, fn) - 1)
+            refs += [('lock region no. %d on one path' % (i + 2), False, True, False, False) for i in range(extra)]
+            nops += extra
+            why += ['%d separate lock regions on one path' % (extra + 1)] * bool(extra)
             rows.append({'cls': cname, 'name': name, 'touches': coarse, 'refs': refs, 'irregular': m['irregular'],
                          'locked': region and not outside and not m['irregular'], 'region': region, 'form': form,
                          'outside_ops': nops, 'outside_touch': outside, 'outside_why': why})
@@ -549,18 +761,27 @@ class C03(Property):
     PID = 'C03'
     QUICK_BUDGET_S = 40
     THOROUGH_BUDGET_S = 800
-    RULE = ('a case = cache class, max_size (1-3), on_miss, initial content, 2-3 thread programs of 1-3 public-API operations '
-            'each (20 kinds: item get/set/del, get, pop, popitem, setdefault, clear, update from pairs / a mapping / another '
-            'cache, |=, ==, !=, copy, copy observed through dict order + class + capacity + eviction order, len / in / keys), '
-            'and a schedule = every choice of the opcode-level scheduler: a single (thorough: double) pre-emption placed at a '
-            'given instruction, a focus schedule (victim thread pre-empted at its k-th instruction INSIDE a given method, the '
-            'other threads then run as far as they get), or a seeded sticky random walk. Families: 19 fixed conflict programs '
-            'x placements, every public method of the translator table as focus victim against evicting / deleting / clearing '
-            'adversaries, random programs. Non-trivial = at least one pre-emption happened while some thread was inside a '
-            'cache operation (a thread blocked on the lock or was switched out mid-operation); distinct = distinct '
-            '(programs, realised schedule).')
-    ASSUMPTIONS = ['CPython pre-empts threads only between bytecode instructions (GIL); C-level dict '
-                   'operations are atomic', 'threading.RLock is a correct re-entrant lock (replaced by a '
+    RULE = ('a case = cache class, max_size (1-3), on_miss, initial content, how the integer keys / values of the model are '
+            'represented in the real run (ints; strings; key objects / str subclasses with Python-level __hash__ and __eq__; '
+            'value objects with Python-level __eq__), 2-3 thread programs of 1-3 public-API operations each (24 kinds: item '
+            'get/set/del, get, pop, popitem, setdefault, clear, update from pairs / a mapping / another cache / keyword '
+            'arguments / pairs or a mapping plus keyword arguments, |=, == and != against a dict or another cache, copy, copy '
+            'observed through dict order + class + capacity + eviction order, len / in / keys), and a schedule = every choice '
+            'of the scheduler, whose scheduling points are the bytecode boundaries inside cacheutils AND the Python-level '
+            '__hash__ / __eq__ callbacks C code makes under a method of the shared cache: a single (thorough: double) '
+            'pre-emption placed at a given point, a focus schedule (victim thread pre-empted at its k-th point INSIDE a given '
+            'method, the other threads then run as far as they get), or a seeded sticky random walk. Families, in this order: '
+            '10 adversarial programs (keyword-form update against a writer of the same keys / a reader of several; == and != '
+            'against a mix of the contents before and after a multi-key writer, over values / keys with Python-level __eq__; '
+            'object keys under item operations) x every point inside the victim method; 19 fixed conflict programs x '
+            'placements; every public method of the translator table in its call forms as focus victim against evicting / '
+            'deleting / clearing / same-key-writing adversaries; random programs. Non-trivial = at least one pre-emption '
+            'happened while some thread was inside a cache operation (a thread blocked on the lock or was switched out '
+            'mid-operation); distinct = distinct (programs, representation, realised schedule).')
+    ASSUMPTIONS = ['CPython pre-empts threads only between bytecode instructions (GIL); a C-level dict operation is atomic '
+                   'EXCEPT where it calls back into Python-level code of keys / values (__hash__, __eq__) - those callbacks '
+                   'are scheduling points of the harness and separate steps of the Lean model (Callbacks.lean)',
+                   'threading.RLock is a correct re-entrant lock (replaced by a '
                    'scheduler-aware equivalent in the harness)', 'free-threaded builds are out of scope']
     EXTRA_TRUSTED = ['bv/sched.py opcode-level scheduler + lock-set monitor', 'C02 Lean model (the atomic step '
                      'function the linearised run is compared with)']
@@ -608,6 +829,11 @@ class C03(Property):
         # methods whose discipline the Lean theorems will reject -> the deep search is directed at them
         self._flagged = [(r['cls'], r['name']) for r in rows if not an.row_ok(r)]
         self._state_funcs = an.lock_requiring_helpers()
+        # which statements of the rejected methods are outside the lock, and through which argument form they are reached
+        self._hints = {}
+        for cname, name, fn in an.public_methods():
+            if (cname, name) in self._flagged:
+                self._hints[(cname, name)] = an.outside_statements(cname, fn)
         self._lock_anomaly = (not an.lock_assigned_in or any(c != 'RLock' for c in an.lock_ctors) or
                               any(w.split('.')[1] not in ('__init__', '__new__') for w in an.lock_assigned_in) or
                               bool(an.helper_reached_unlocked()) or bool(inherited_check(an)))
@@ -664,11 +890,14 @@ class C03(Property):
     # ------------------------------------------------------------------ generation
     KEYS = [1, 2, 3, 4]
 
-    def rand_op(self, rng, on_miss):
+    def rand_op(self, rng, on_miss, kw_ok=False):
         k = rng.choice(self.KEYS)
         r = rng.random()
         pairs = [[rng.choice(self.KEYS), rng.randint(0, 9)] for _ in range(rng.randint(1, 3))]
-        table = [(0.26, ['set', k, rng.randint(0, 9)]), (0.10, ['get', k]), (0.09, ['getd', k]), (0.06, ['del', k]),
+        kwp = [[rng.choice(self.KEYS), rng.randint(0, 9)] for _ in range(rng.randint(1, 3))]
+        kwform = [['updatek', [], kwp], ['updatek', pairs, kwp], ['updatekd', pairs, kwp]][rng.randrange(3)] \
+            if kw_ok else ['updated', pairs + kwp]
+        table = [(0.20, ['set', k, rng.randint(0, 9)]), (0.04, kwform), (0.01, ['eqc', pairs]), (0.01, ['nec', pairs]), (0.10, ['get', k]), (0.09, ['getd', k]), (0.06, ['del', k]),
                  (0.05, ['popd', k]), (0.02, ['pop', k]), (0.07, ['setdefault', k, rng.randint(0, 9)]),
                  (0.04, ['update', pairs]), (0.03, ['updated', pairs]), (0.03, ['updatec', pairs]),
                  (0.02, ['ior', pairs]), (0.04, ['popitem']), (0.03, ['clear']), (0.03, ['copy']),
@@ -686,8 +915,17 @@ class C03(Property):
         m = rng.choice([1, 2, 2, 3])
         on_miss = rng.random() < 0.3
         init = [[k, 0] for k in rng.sample(self.KEYS, rng.randint(0, min(m, 3)))]
-        progs = [[self.rand_op(rng, on_miss) for _ in range(rng.randint(1, maxops))] for _ in range(nthreads)]
-        return {'cls': cls, 'max': m, 'on_miss': on_miss, 'init': init, 'progs': progs}
+        # how the model's integer keys / values are represented in the real run
+        kk = rng.choice(['int'] * 6 + ['str', 'str', 'obj', 'strobj'])
+        vk = rng.choice(['int', 'int', 'int', 'obj'])
+        progs = [[self.rand_op(rng, on_miss, kk in KW_KEY_KINDS) for _ in range(rng.randint(1, maxops))]
+                 for _ in range(nthreads)]
+        base = {'cls': cls, 'max': m, 'on_miss': on_miss, 'init': init, 'progs': progs}
+        if kk != 'int':
+            base['keys'] = kk
+        if vk != 'int':
+            base['vals'] = vk
+        return base
 
     FIXED = [
         # eviction race: both threads insert a new key into a full cache
@@ -719,6 +957,56 @@ class C03(Property):
         {'cls': 'LRI', 'max': 2, 'on_miss': False, 'init': [[1, 0], [2, 0]], 'progs': [[['set', 3, 1]], [['contains', 1], ['contains', 3]]]},
     ]
 
+    # Small adversarial families generated FIRST in the stream.  (victim thread 0, the method pre-empted, base case):
+    # the victim is pre-empted at EVERY scheduling point inside that method (opcode boundaries inside cacheutils and
+    # the Python-level __hash__ / __eq__ callbacks of keys and values), the other thread(s) then run.
+    ADVERSARIAL = [
+        # keyword-form update(): two writers with overlapping keys (a mix of the two is no sequential outcome)
+        ('update', {'cls': 'LRU', 'max': 3, 'on_miss': False, 'init': [], 'keys': 'str',
+                    'progs': [[['updatek', [], [[1, 1], [2, 2]]]], [['updated', [[1, 7], [2, 9]]]]]}),
+        ('update', {'cls': 'LRI', 'max': 2, 'on_miss': False, 'init': [[1, 0]], 'keys': 'str',
+                    'progs': [[['updatek', [[1, 1]], [[2, 2], [3, 3]]]], [['updatek', [], [[2, 7], [3, 9]]]]]}),
+        ('update', {'cls': 'LRU', 'max': 2, 'on_miss': False, 'init': [[1, 0], [2, 0]], 'keys': 'strobj', 'vals': 'obj',
+                    'progs': [[['updatekd', [[1, 5]], [[2, 5]]]], [['copy']]]}),
+        ('update', {'cls': 'LRI', 'max': 3, 'on_miss': False, 'init': [[3, 0]], 'keys': 'str',
+                    'progs': [[['updatek', [], [[1, 1], [2, 1], [3, 1]]]], [['eq', [[1, 1], [2, 1], [3, 0]]], ['del', 1]]]}),
+        # == / != while a writer replaces several values: stored values (keys) with a Python-level __eq__ make the
+        # comparison pre-emptible between two items; the comparand is a mix of the contents before and after
+        ('__eq__', {'cls': 'LRU', 'max': 2, 'on_miss': False, 'init': [[1, 0], [2, 0]], 'vals': 'obj',
+                    'progs': [[['eq', [[1, 0], [2, 5]]]], [['update', [[1, 5], [2, 5]]]]]}),
+        ('__eq__', {'cls': 'LRI', 'max': 3, 'on_miss': False, 'init': [[1, 0], [2, 0], [3, 0]], 'vals': 'obj', 'keys': 'obj',
+                    'progs': [[['eqc', [[1, 0], [2, 0], [3, 4]]]], [['updated', [[1, 4], [2, 4], [3, 4]]]]]}),
+        ('__ne__', {'cls': 'LRI', 'max': 2, 'on_miss': False, 'init': [[1, 0], [2, 0]], 'keys': 'obj',
+                    'progs': [[['ne', [[1, 0], [2, 5]]]], [['updatec', [[1, 5], [2, 5]]]]]}),
+        ('__ne__', {'cls': 'LRU', 'max': 3, 'on_miss': False, 'init': [[1, 0], [2, 0], [3, 0]], 'vals': 'obj', 'keys': 'strobj',
+                    'progs': [[['nec', [[1, 0], [2, 7], [3, 7]]]], [['updatek', [[2, 7]], [[1, 7], [3, 7]]]]]}),
+        # keys with a Python-level __hash__ / __eq__ under the ordinary item operations (every lookup is pre-emptible)
+        ('__setitem__', {'cls': 'LRU', 'max': 2, 'on_miss': False, 'init': [[1, 0], [2, 0]], 'keys': 'obj',
+                         'progs': [[['set', 3, 1]], [['set', 4, 2], ['get', 1]]]}),
+        ('get', {'cls': 'LRI', 'max': 1, 'on_miss': True, 'init': [[1, 0]], 'keys': 'obj', 'vals': 'obj',
+                 'progs': [[['getd', 2]], [['setdefault', 3, 1]]]}),
+    ]
+
+    def adversarial_cases(self, only=None, stride_after=40):
+        live = [(base, 0, fn) for fn, base in self.ADVERSARIAL if only is None or fn in only]
+        yield from self._focus_sweep(live, list(range(0, stride_after)) + list(range(stride_after, 600, 3)))
+
+    def _focus_sweep(self, live, ks, tails=0):
+        for k in ks:
+            nxt = []
+            for base, victim, fn in live:
+                case = dict(base, sched={'kind': 'focus', 'victim': victim, 'fn': fn, 'k': k})
+                obs = self.impl(case)
+                yield case
+                if obs.get('focus_hit'):
+                    nxt.append((base, victim, fn))
+                    for _ in range(tails):
+                        yield dict(base, sched={'kind': 'focus', 'victim': victim, 'fn': fn, 'k': k,
+                                                'tail': self.rng.randrange(1 << 30)})
+            live = nxt
+            if not live:
+                return
+
     def schedules_for(self, base, rng, systematic, nrandom, dense=False):
         """yield cases = base + schedule"""
         n = len(base['progs'])
@@ -743,8 +1031,11 @@ class C03(Property):
     def cases(self, budget_s):
         rng = self.rng
         self.warm_up()
+        # (0) the small adversarial families first: keyword-form update, == / != over values and keys with Python-level
+        #     __eq__ / __hash__ (pre-emption inside the C-level dict call), every scheduling point inside the victim
+        yield from self.adversarial_cases()
         # (1) fixed conflict programs: EVERY single pre-emption placement (thorough: also pairs) + random walks
-        for base in self.FIXED:
+        for base in self.FIXED + ([b for _f, b in self.ADVERSARIAL] if self.thorough else []):
             yield from self.schedules_for(base, rng, systematic=True, nrandom=10 if not self.thorough else 60,
                                           dense=True)
         # (2) every public method of the translator's table as the victim of a pre-emption at its k-th own
@@ -767,20 +1058,42 @@ class C03(Property):
 
     # ---- directed search: pre-empt INSIDE the methods the translator reports as not (wholly) protected
     @staticmethod
-    def ops_for(name, k):
-        return {'__getitem__': [['get', k]], 'get': [['getd', k]], '__setitem__': [['set', k, 7]],
-                '__delitem__': [['del', k]], 'pop': [['popd', k], ['pop', k]], 'popitem': [['popitem']],
-                'clear': [['clear']], 'copy': [['copy']], 'setdefault': [['setdefault', k, 7]],
-                'update': [['update', [[k, 7], [k % 4 + 1, 8]]]], '__ior__': [['ior', [[k, 7], [k % 4 + 1, 8]]]],
-                '__eq__': [['eq', [[k, 0]]]], '__ne__': [['ne', [[k, 0]]]], '__contains__': [['contains', k]],
-                '__len__': [['len']], 'keys': [['keys']], '__iter__': [['keys']]}.get(name, [])
+    def ops_for(name, k, full=True, forms=()):
+        """the calls of public method `name` on key k, in EVERY argument form the harness has (full), else one per
+        method; `forms` = the parameter forms through which the translator says an unlocked statement is reached
+        ('kw': the **kwargs dict, 'pos': a positional parameter): those call forms come first / are the ones kept"""
+        k2 = k % 4 + 1
+        upd = [['update', [[k, 7], [k2, 8]]], ['updatek', [], [[k, 7], [k2, 8]]], ['updatek', [[k, 7]], [[k2, 8], [3, 8]]],
+               ['updatekd', [[k2, 8]], [[k, 7], [3, 7]]], ['updated', [[k, 7], [k2, 8]]], ['updatec', [[k, 7], [k2, 8]]]]
+        if 'kw' in forms:
+            upd = [o for o in upd if o[0] in ('updatek', 'updatekd')] + \
+                ([o for o in upd if o[0] not in ('updatek', 'updatekd')] if full else [])
+        elif not full:
+            upd = upd[:2]
+        ops = {'__getitem__': [['get', k]], 'get': [['getd', k]], '__setitem__': [['set', k, 7]],
+               '__delitem__': [['del', k]], 'pop': [['popd', k], ['pop', k]], 'popitem': [['popitem']],
+               'clear': [['clear']], 'copy': [['copy'], ['copyp']], 'setdefault': [['setdefault', k, 7]],
+               'update': upd, '__ior__': [['ior', [[k, 7], [k2, 8]]]],
+               '__eq__': [['eq', [[k, 0]]], ['eqc', [[k, 0]]]], '__ne__': [['ne', [[k, 0]]], ['nec', [[k, 0]]]],
+               '__contains__': [['contains', k]],
+               '__len__': [['len']], 'keys': [['keys']], '__iter__': [['keys']]}.get(name, [])
+        return ops if full or name == 'update' else ops[:1]
+
+    @staticmethod
+    def _mixes(kind, m, after=5):
+        """== / != of a cache {1: 0 … m: 0} against the first j items unchanged and the rest already replaced by
+        `after` - contents the cache has neither before nor after the writer that replaces ALL values"""
+        return [([kind, [[i, 0] for i in range(1, j + 1)] + [[i, after] for i in range(j + 1, m + 1)]],
+                 [['update', [[i, after] for i in range(1, m + 1)]]]) for j in range(1, m)]
 
     def focus_bases(self, flagged, full=True):
         """(base case, victim tid, method name) for every method in `flagged` = [(cls, name)]"""
         out = []
+        hints = getattr(self, '_hints', None) or {}
         for cls, name in flagged:
             classes = [cls] if cls == 'LRU' else ['LRI', 'LRU']
             oms = [False, True] if name in ('__getitem__', 'get', 'setdefault') else [False]
+            forms = {f for _ln, _txt, fs in hints.get((cls, name), []) for f in fs}
             for c in classes:
                 if c == 'LRU' and cls == 'LRI' and name in self._analysis.classes.get('LRU', {}):
                     continue        # overridden: LRU has its own row
@@ -788,15 +1101,37 @@ class C03(Property):
                     init = [[k, 0] for k in range(1, m + 1)]
                     fresh = [[5 + i, 1] for i in range(m)]
                     for om in (oms if full else oms[-1:]):
+                        if name in ('__eq__', '__ne__'):
+                            # whole-dict comparison against a mix of the contents before / after a writer; values and
+                            # keys with a Python-level __eq__ are what makes the comparison pre-emptible
+                            for kind in (['eq', 'eqc'] if name == '__eq__' else ['ne', 'nec'])[:2 if full else 1]:
+                                for vop, adv in self._mixes(kind, max(m, 2)):
+                                    for kinds in ({'vals': 'obj'}, {'keys': 'obj'}, {'keys': 'strobj', 'vals': 'obj'}):
+                                        out.append((dict({'cls': c, 'max': max(m, 2), 'on_miss': om,
+                                                          'init': [[k, 0] for k in range(1, max(m, 2) + 1)],
+                                                          'progs': [[vop], adv]}, **kinds), 0, name))
                         for key in (sorted({1, m, 4}) if full else [1]):
-                            for vop in self.ops_for(name, key):
+                            for vop in self.ops_for(name, key, full, forms):
                                 advs = [[['update', fresh]], [['set', p[0], p[1]] for p in fresh], [['del', key]],
                                         [['clear']], [['set', key, 9]], [['popitem']], [vop]]
                                 if not full:
                                     advs = [advs[0], advs[2], advs[3]]
+                                if vop[0] in ('update', 'updated', 'updatec', 'updatek', 'updatekd', 'ior'):
+                                    # a second writer of the SAME keys (a mix of the two is no sequential outcome), and
+                                    # a reader of several of them
+                                    ks = list(dict.fromkeys(q[0] for part in vop[1:] for q in part))
+                                    advs = [[['updated', [[q, 9] for q in ks]]], [['copy']]] + advs
+                                if vop[0] in ('updatek', 'updatekd'):
+                                    kindss = [{'keys': 'str'}] + ([{'keys': 'strobj', 'vals': 'obj'}] if full else [])
+                                elif full and name in ('__setitem__', '__getitem__', '__delitem__', 'pop', 'get',
+                                                       'setdefault', 'update', '__eq__', '__ne__'):
+                                    kindss = [{}, {'keys': 'obj', 'vals': 'obj'}]
+                                else:
+                                    kindss = [{}]
                                 for adv in advs:
-                                    out.append(({'cls': c, 'max': m, 'on_miss': om, 'init': init,
-                                                 'progs': [[vop], adv]}, 0, name))
+                                    for kinds in kindss:
+                                        out.append((dict({'cls': c, 'max': m, 'on_miss': om, 'init': init,
+                                                          'progs': [[vop], adv]}, **kinds), 0, name))
         return out
 
     def focus_cases(self, flagged, max_k=400, full=True, stride=1, tails=0, followup=False):
@@ -815,20 +1150,7 @@ class C03(Property):
         self.rng.shuffle(live)
         live.sort(key=lambda b: b[0]['max'])          # boundary size first
         off = self.rng.randrange(stride) if stride > 1 else 0
-        for k in range(off, max_k, stride):
-            nxt = []
-            for base, victim, fn in live:
-                case = dict(base, sched={'kind': 'focus', 'victim': victim, 'fn': fn, 'k': k})
-                obs = self.impl(case)
-                yield case
-                if obs.get('focus_hit'):
-                    nxt.append((base, victim, fn))
-                    for _ in range(tails):
-                        yield dict(base, sched={'kind': 'focus', 'victim': victim, 'fn': fn, 'k': k,
-                                                'tail': self.rng.randrange(1 << 30)})
-            live = nxt
-            if not live:
-                return
+        yield from self._focus_sweep(live, range(off, max_k, stride), tails)
 
     def deep_cases(self, budget_s):
         rng = self.rng
@@ -836,6 +1158,13 @@ class C03(Property):
         flagged = getattr(self, '_flagged', None) or []
         if flagged:
             self.stats['directed_at'] = ['%s.%s' % f for f in flagged]
+            self.stats['directed_statements'] = {'%s.%s' % k: [list(x) for x in v]
+                                                 for k, v in (getattr(self, '_hints', None) or {}).items()}
+            names = {n for _c, n in flagged} | ({'__ne__'} if any(n == '__eq__' for _c, n in flagged) else set())
+            # first the hand-written adversarial programs of exactly the rejected methods, then the generated ones in
+            # the call forms that reach the statements the translator found outside the lock (boundary size only)
+            yield from self.adversarial_cases(only=names)
+            yield from self.focus_cases(flagged, full=False)
             if getattr(self, '_lock_anomaly', False):
                 yield from self.focus_cases(flagged, full=False, tails=3, followup=True, stride=2)
             yield from self.focus_cases(flagged)
@@ -1003,6 +1332,12 @@ class C03(Property):
                 obs['died_first'] = first
             else:
                 self.stats['child_died_not_reproduced'] = self.stats.get('child_died_not_reproduced', 0) + 1
+        if obs.get('step_limit'):
+            # a run that hit the step limit leaves its workers parked in the child for good (sched.dispatch): start a
+            # fresh child now and then so that they do not pile up
+            self._frozen_runs = getattr(self, '_frozen_runs', 0) + 1
+            if self._frozen_runs % 100 == 0:
+                self._stop_child()
         if len(self._obs_cache) > 20000:
             self._obs_cache.clear()
         self._obs_cache[key] = obs
@@ -1015,13 +1350,14 @@ class C03(Property):
         if key in self._obs_cache:
             return self._obs_cache[key]
         cu = self.cu
-        progs = [[(lambda c, op=op: canon(apply_op(c, op))) for op in p] for p in case['progs']]
         obs = {}
         try:
+            K, V = codec(case)
+            progs = [[(lambda c, op=op: canon(apply_op(c, op, K, V))) for op in p] for p in case['progs']]
             ch = self.chooser(case['sched'], len(progs))
             with time_limit(30):
                 r = sched.run(cu, progs, ch,
-                              lambda: mk_cache(cu, case['cls'], case['max'], case['on_miss'], case['init']),
+                              lambda: mk_cache(cu, case['cls'], case['max'], case['on_miss'], case['init'], K, V),
                               max_steps=60000, state_funcs=getattr(self, '_state_funcs', None))
             cache = r['cache']
             obs = {'results': r['results'], 'steps': r['steps'], 'deadlock': r['deadlock'],
@@ -1033,13 +1369,15 @@ class C03(Property):
                 obs['stuck'] = True
             if r.get('foreign_acquires'):
                 obs['foreign_acquires'] = r['foreign_acquires']
+            if r.get('user_points'):
+                obs['user_points'] = r['user_points']
             if hasattr(ch, 'state'):
                 obs['focus_hit'] = bool(ch.state['hit'])
             try:
                 with time_limit(5):
                     obs['final'] = sorted(canon(list(dict.items(cache))))
                     obs['len'] = len(cache)
-                    obs['order'] = probe_order(cache, case['max'])
+                    obs['order'] = probe_order(cache, case['max'], K, V)
             except Exception as e:  # cache unusable afterwards
                 obs['unusable'] = exc_name(e)
         except Exception as e:
@@ -1056,19 +1394,20 @@ class C03(Property):
             return self._serial_cache[k]
         cu = self.cu
         outs = {}
+        K, V = codec(case)
         for order in merges(case['progs']):
-            c = mk_cache(cu, case['cls'], case['max'], case['on_miss'], case['init'])
+            c = mk_cache(cu, case['cls'], case['max'], case['on_miss'], case['init'], K, V)
             idx = [0] * len(case['progs'])
             res = [[] for _ in case['progs']]
             for t in order:
                 op = case['progs'][t][idx[t]]
                 idx[t] += 1
                 try:
-                    res[t].append(['ok', canon(apply_op(c, op))])
+                    res[t].append(['ok', canon(apply_op(c, op, K, V))])
                 except Exception as e:
                     res[t].append(['exc', exc_name(e)])
             final = sorted(canon(list(dict.items(c))))
-            order_probe = probe_order(c, case['max'])
+            order_probe = probe_order(c, case['max'], K, V)
             outs[self._okey(res, final, order_probe)] = order
         if len(self._serial_cache) > 5000:
             self._serial_cache.clear()
@@ -1108,7 +1447,8 @@ class C03(Property):
         if obs.get('deadlock'):
             return Failure('deadlock', 'all threads blocked (schedule %r)' % (case['sched'],))
         if obs.get('step_limit'):
-            return Failure('livelock', 'run exceeded the step limit')
+            return Failure('livelock', 'the run exceeded the limit of 60000 scheduling points: under this schedule an '
+                           'operation does not terminate (results so far %r)' % (obs.get('results'),))
         if 'unusable' in obs:
             return Failure('unusable', 'cache unusable after the run: %s' % obs['unusable'])
         if obs['len'] > case['max'] or 'OVER' in obs['order']:
@@ -1118,6 +1458,9 @@ class C03(Property):
         self.stats['runs'] = self.stats.get('runs', 0) + 1
         self.stats['steps'] = self.stats.get('steps', 0) + obs['steps']
         self.stats['switches'] = self.stats.get('switches', 0) + obs.get('switches', 0)
+        if obs.get('user_points'):
+            self.stats['user_points'] = self.stats.get('user_points', 0) + obs['user_points']
+            self.stats['runs_with_user_points'] = self.stats.get('runs_with_user_points', 0) + 1
         if self._okey(obs['results'], obs['final'], obs['order']) in serial:
             return None
         # not a serial outcome.  Is the deviation confined to unlocked inherited readers?
@@ -1173,6 +1516,12 @@ class C03(Property):
             elif k in ('updated', 'updatec'):   # a mapping yields each key once: first position, last value
                 last = dict((a, b) for a, b in op[1])
                 toks.append('u:' + self._ptxt([[a, last[a]] for a in dict.fromkeys(a for a, _ in op[1])]))
+            elif k in ('updatek', 'updatekd'):  # positional part (a list keeps repeated keys, a mapping yields each key
+                #                                      once), then the keyword dict in its order
+                if case.get('keys', 'int') not in KW_KEY_KINDS:
+                    return None                 # keyword names must be strings: outside the model's domain
+                pos = op[1] if k == 'updatek' else self._dedup(op[1])
+                toks.append('U:%s:%s' % (self._ptxt(pos), self._ptxt(self._dedup(op[2]))))
             elif k == 'copyp':
                 toks.append('K')
             elif k == 'popitem':
@@ -1181,16 +1530,22 @@ class C03(Property):
                 toks.append('c')
             elif k == 'copy':
                 toks.append('C')
-            elif k == 'eq':
-                toks.append('e:' + self._ptxt(op[1]))
-            elif k == 'ne':
-                toks.append('n:' + self._ptxt(op[1]))
+            elif k in ('eq', 'eqc'):            # the comparand is a mapping: each key once
+                toks.append('e:' + self._ptxt(self._dedup(op[1])))
+            elif k in ('ne', 'nec'):
+                toks.append('n:' + self._ptxt(self._dedup(op[1])))
             elif k == 'ior':                    # `cache |= dict(pairs)`: the dict yields each key once
                 last = dict((a, b) for a, b in op[1])
                 toks.append('i:' + self._ptxt([[a, last[a]] for a in dict.fromkeys(a for a, _ in op[1])]))
             else:
                 return None
         return ' '.join(toks)
+
+    @staticmethod
+    def _dedup(pairs):
+        """what a dict built from `pairs` yields: each key once, at its first position, with its last value"""
+        last = dict((a, b) for a, b in pairs)
+        return [[a, last[a]] for a in dict.fromkeys(a for a, _ in pairs)]
 
     def _linearised(self, case, obs):
         """locked operations in lock-acquisition order (unlocked readers are not part of the model run)"""
@@ -1257,6 +1612,10 @@ class C03(Property):
                         yield dict(case, progs=[p for p in np if p])
         if case['init']:
             yield dict(case, init=case['init'][:-1])
+        for f in ('vals', 'keys'):      # plain ints instead of objects / strings, where the programs allow it
+            if case.get(f, 'int') != 'int' and not (f == 'keys' and any(
+                    op[0] in ('updatek', 'updatekd') for p in progs for op in p)):
+                yield {k: v for k, v in case.items() if k != f}
 
     def describe(self, case):
         return case
